@@ -4,6 +4,7 @@ import (
 	"bytes"
 	"encoding/json"
 	"fmt"
+	"path/filepath"
 	"sort"
 	"strings"
 
@@ -232,7 +233,10 @@ func c07Run(c *mon.Ctx) {
 		run(&rulegen.Spec{List: "exit", Action: "always", Syscalls: []rulegen.Syscall{{Text: fmt.Sprint(i), Num: i}}})
 	})
 	// watches
-	for _, target := range []struct{ p, kind string }{{file, "path"}, {dir, "dir"}} {
+	wd := filepath.Dir(dir)
+	// the kind of a watch is re-derived from the filesystem when the text is parsed again: also through
+	// symbolic links (a link to a directory IS an existing directory for stat)
+	for _, target := range []struct{ p, kind string }{{file, "path"}, {dir, "dir"}, {wd + "/link-to-dir", "dir"}, {wd + "/link-to-file", "path"}, {wd + "/dangling-link", "path"}, {wd + "/link-to-dir/sub", "dir"}} {
 		for m := 0; m < 16; m++ {
 			perms := ""
 			for i, l := range "rwxa" {
@@ -247,31 +251,34 @@ func c07Run(c *mon.Ctx) {
 	}
 	// watch-shaped syscall rules (path/dir + perm [+ key], all syscalls) in every order / action / operator,
 	// with the key given with -k and as a filter with every operator
-	for _, act := range []string{"always", "never"} {
-		for _, op := range []string{"=", "!="} {
-			for _, order := range [][]string{{"path", "perm"}, {"perm", "path"}, {"dir", "perm"}, {"perm", "dir"}, {"perm"}, {"path", "perm", "perm"}, {"path", "perm", "key"}, {"dir", "perm", "key"}, {"key", "path", "perm"}, {"path", "key", "perm"}, {"path", "perm", "key", "key"}} {
-				for _, keys := range [][]string{nil, {"k"}, {"k1", "k2"}} {
-					for _, keyOp := range rulegen.AllOps {
-						hasKeyFilter := false
-						s := &rulegen.Spec{List: "exit", Action: act, Keys: keys}
-						for _, fn := range order {
-							switch fn {
-							case "path":
-								s.Filters = append(s.Filters, rulegen.Filter{LHS: "path", Op: op, RHS: file, Field: uapi.Fields["path"], Str: true})
-							case "dir":
-								s.Filters = append(s.Filters, rulegen.Filter{LHS: "dir", Op: op, RHS: dir, Field: uapi.Fields["dir"], Str: true})
-							case "perm":
-								s.Filters = append(s.Filters, rulegen.Filter{LHS: "perm", Op: "=", RHS: "wa", Field: uapi.Fields["perm"], Value: 10})
-							case "key":
-								hasKeyFilter = true
-								s.Filters = append(s.Filters, rulegen.Filter{LHS: "key", Op: keyOp, RHS: "kf", Field: uapi.Fields["key"], Str: true})
+	for _, tv := range [][2]string{{file, dir}, {wd + "/link-to-file", wd + "/link-to-dir"}} {
+		file, dir := tv[0], tv[1]
+		for _, act := range []string{"always", "never"} {
+			for _, op := range []string{"=", "!="} {
+				for _, order := range [][]string{{"path", "perm"}, {"perm", "path"}, {"dir", "perm"}, {"perm", "dir"}, {"perm"}, {"path", "perm", "perm"}, {"path", "perm", "key"}, {"dir", "perm", "key"}, {"key", "path", "perm"}, {"path", "key", "perm"}, {"path", "perm", "key", "key"}} {
+					for _, keys := range [][]string{nil, {"k"}, {"k1", "k2"}} {
+						for _, keyOp := range rulegen.AllOps {
+							hasKeyFilter := false
+							s := &rulegen.Spec{List: "exit", Action: act, Keys: keys}
+							for _, fn := range order {
+								switch fn {
+								case "path":
+									s.Filters = append(s.Filters, rulegen.Filter{LHS: "path", Op: op, RHS: file, Field: uapi.Fields["path"], Str: true})
+								case "dir":
+									s.Filters = append(s.Filters, rulegen.Filter{LHS: "dir", Op: op, RHS: dir, Field: uapi.Fields["dir"], Str: true})
+								case "perm":
+									s.Filters = append(s.Filters, rulegen.Filter{LHS: "perm", Op: "=", RHS: "wa", Field: uapi.Fields["perm"], Value: 10})
+								case "key":
+									hasKeyFilter = true
+									s.Filters = append(s.Filters, rulegen.Filter{LHS: "key", Op: keyOp, RHS: "kf", Field: uapi.Fields["key"], Str: true})
+								}
 							}
+							if !hasKeyFilter && keyOp != "=" {
+								continue
+							}
+							run(s)
+							c.Add("watch_shaped_syscall_rules", 1)
 						}
-						if !hasKeyFilter && keyOp != "=" {
-							continue
-						}
-						run(s)
-						c.Add("watch_shaped_syscall_rules", 1)
 					}
 				}
 			}
@@ -288,7 +295,7 @@ func c07Run(c *mon.Ctx) {
 func init() {
 	register(&mon.CheckSpec{
 		ID: "C07", Level: "exploration",
-		Rule: "cases = the C06 request generator restricted to the statement's domain (string values without whitespace/quotes, watches on an existing file/directory, runtime architecture amd64, resolveIds=false): the single-filter grid (list x action x field x operator x V values, half of them with a syscall list), every inter-field comparison, every syscall number 0..2047, file and directory watches with every permission subset and 0-2 keys, watch-SHAPED syscall rules (path/dir + perm in every order, action, operator, with and without keys), and seeded random multi-filter rules. For each rule Build accepts: ToCommandLine must succeed, its text must re-parse and re-build to byte-identical wire data, and decoding those bytes must print the same text. distinct_nontrivial = distinct requests (by text).",
+		Rule: "cases = the C06 request generator restricted to the statement's domain (string values without whitespace/quotes, watches on an existing file/directory, runtime architecture amd64, resolveIds=false): the single-filter grid (list x action x field x operator x V values, half of them with a syscall list), every inter-field comparison, every syscall number 0..2047, file and directory watches (also through symbolic links to a directory / a file / nothing) with every permission subset and 0-2 keys, watch-SHAPED syscall rules (path/dir + perm in every order, action, operator, with and without keys), and seeded random multi-filter rules. For each rule Build accepts: ToCommandLine must succeed, its text must re-parse and re-build to byte-identical wire data, and decoding those bytes must print the same text. distinct_nontrivial = distinct requests (by text).",
 		Assumptions: []string{
 			"requests Build rejects are outside the domain and only counted",
 			"a difference that is exactly 'the arch triple moved to slot 0, nothing else changed' is classified separately (known finding K6); every other difference is a violation",
